@@ -62,7 +62,7 @@ impl Scenario for C06 {
     fn total_runs(&self, tier: Tier) -> u64 {
         match tier {
             Tier::Quick => 120_000,
-            Tier::Thorough => 2_500_000,
+            Tier::Thorough => 6_000_000,
         }
     }
     fn plan(&self, seed: u64, idx: u64, _tier: Tier) -> Plan {
